@@ -272,15 +272,15 @@ def corpus():
 
 def run_guarded(cmd, lines, per_case_s=90):
     """one output line per input line; a case on which the process hangs (no answer within
-    per_case_s although nothing else is pending) or dies is answered "!hang" / "!died rc" and
-    the process is restarted on the next case"""
+    per_case_s) or dies is answered "!hang" / "!died rc" and the process is restarted on the
+    next case"""
     import select
     import threading
     out = []
     start = 0
     while start < len(lines):
-        p = subprocess.Popen(cmd, stdin=subprocess.PIPE, stdout=subprocess.PIPE, stderr=subprocess.DEVNULL, preexec_fn=lambda: resource.setrlimit(resource.RLIMIT_CORE, (0, 0)))
-        chunk = lines[start:]
+        p = subprocess.Popen(cmd, stdin=subprocess.PIPE, stdout=subprocess.PIPE, stderr=subprocess.DEVNULL, bufsize=0)
+        chunk = lines[start:start + 400]      # a restart re-sends only a small window
 
         def feed(p=p, chunk=chunk):
             try:
@@ -289,22 +289,34 @@ def run_guarded(cmd, lines, per_case_s=90):
             except Exception:
                 pass
         threading.Thread(target=feed, daemon=True).start()
-        while len(out) < len(lines):
-            r, _, _ = select.select([p.stdout], [], [], per_case_s)
+        fd = p.stdout.fileno()
+        buf = b""
+        end = start + len(chunk)
+        while len(out) < end:
+            while b"\n" in buf and len(out) < end:
+                line, buf = buf.split(b"\n", 1)
+                out.append(line.decode("latin-1"))
+            if len(out) >= end:
+                break
+            r, _, _ = select.select([fd], [], [], per_case_s)
             if not r:
                 p.kill()
                 p.wait()
                 out.append("!hang")
                 break
-            line = p.stdout.readline()
-            if not line:
+            data = os.read(fd, 65536)
+            if not data:
                 rc = p.wait()
-                if len(out) < len(lines):
-                    out.append("!died %s" % rc)
+                out.append("!died %s" % rc)
                 break
-            out.append(line.decode("latin-1").rstrip("\n"))
+            buf += data
         else:
-            p.wait()
+            pass
+        try:
+            p.kill()
+        except Exception:
+            pass
+        p.wait()
         start = len(out)
     return out
 
@@ -459,9 +471,13 @@ def check(run, replay):
                           {"input": {"source": expr + "\n#endif\n"}, "impl": vlib.show(i), "model": vlib.show(m), "broken": "correspondence ppfold"},
                           found_input=(m == [b"X"] and i[:1] == [b"V"]))
     ppub = build_ppub()
-    lines = [b" ".join(c).decode() for c in pcases]
+    ubs = [k for k, m in enumerate(pm) if m == [b"U"]]
+    keep = set(ubs[:len(EDGE) * len(EDGE) * 2] + rng.sample(ubs, min(len(ubs), N(300, 3000))))
+    sel = [k for k, m in enumerate(pm) if m != [b"U"] or k in keep]
+    scases, spm = [pcases[k] for k in sel], [pm[k] for k in sel]
+    lines = [b" ".join(c).decode() for c in scases]
     uio = run_guarded([ppub], lines)
-    for c, m, line in zip(pcases, pm, uio):
+    for c, m, line in zip(scases, spm, uio):
         ub = line.startswith("!")
         run.count("ppfold-sanitizer", None, nontrivial=tuple(c), bucket=c[0].decode() + ":" + ("report" if ub else "clean"))
         if ub:
